@@ -154,6 +154,64 @@ Definition c04_step_ok (hist : list pstep) (st : pstep) : bool :=
   | _, _ => true
   end.
 
+(* ---------- C06 oracle: safe-to-notar / safe-to-skip ---------- *)
+Definition all_blocks (steps : list pstep) : list (blockid * blockid) := flat_map step_blocks steps.
+Definition all_events (steps : list pstep) : list pevent := flat_map sp_events steps.
+Definition notar_stake_of (e : epoch) (acc : list vote) (s : slot) (h : hash) : N := stake_sum e (voters_of e acc s (KNotar h)).
+Definition skip_stake_of (e : epoch) (acc : list vote) (s : slot) : N := stake_sum e (voters_of e acc s KSkip).
+Definition own_voted_other (e : epoch) (acc : list vote) (s : slot) (h : hash) : bool :=
+  has_vote acc s KSkip (own e)
+  || existsb (fun v => (v_slot v =? s) && (v_signer v =? own e)
+                       && match v_kind v with KNotar h' => negb (h' =? h) | _ => false end) acc.
+Definition parent_certified (certs : list cert) (p : blockid) : bool :=
+  existsb (fun c => (c_slot c =? fst p)
+                    && match c_kind c with CNotar h | CNotarFb h | CFastFinal h => h =? snd p | _ => false end) certs.
+Definition s2n_cond (e : epoch) (acc : list vote) (blocks : list (blockid * blockid)) (certs : list cert) (b : blockid) : bool :=
+  let ns := notar_stake_of e acc (fst b) (snd b) in
+  own_voted_other e acc (fst b) (snd b)
+  && (is_weak_quorum e ns || (is_weakest_quorum e ns && is_quorum e (ns + skip_stake_of e acc (fst b))))
+  && existsb (fun bp => bid_eqb (fst bp) b && parent_certified certs (snd bp)) blocks.
+Definition top_notar_of (e : epoch) (acc : list vote) (s : slot) : N :=
+  fold_right N.max 0 (map (notar_stake_of e acc s) (hashes_of_votes acc s)).
+Definition nos_of (e : epoch) (acc : list vote) (s : slot) : N :=
+  stake_sum e (filter (fun v => has_vote acc s KSkip v
+                                || existsb (fun w => (v_slot w =? s) && (v_signer w =? v)
+                                                     && match v_kind w with KNotar _ => true | _ => false end) acc) (vals e)).
+Definition own_notarized (e : epoch) (acc : list vote) (s : slot) : bool :=
+  existsb (fun w => (v_slot w =? s) && (v_signer w =? own e) && match v_kind w with KNotar _ => true | _ => false end) acc.
+Definition s2s_cond (e : epoch) (acc : list vote) (s : slot) : bool :=
+  own_notarized e acc s && is_weak_quorum e (nos_of e acc s - top_notar_of e acc s).
+Definition ev_s2n (evs : list pevent) (b : blockid) : bool :=
+  existsb (fun x => match x with ESafeToNotar b' => bid_eqb b b' | _ => false end) evs.
+Definition ev_s2s (evs : list pevent) (s : slot) : bool :=
+  existsb (fun x => match x with ESafeToSkip s' => s =? s' | _ => false end) evs.
+Fixpoint count_ev (f : pevent -> bool) (l : list pevent) : nat :=
+  match l with [] => O | x :: t => (if f x then 1 else 0)%nat + count_ev f t end.
+
+(* soundness (every signal justified, at most once) is checked at every step; completeness at the step whose
+   operation concerned that slot (the signal must have been raised by the end of that step) *)
+Definition c06_step_ok (e : epoch) (hist : list pstep) (st : pstep) : bool :=
+  let acc := accepted_votes (st :: hist) in
+  let blocks := all_blocks (st :: hist) in
+  let certs := all_certs (st :: hist) in
+  let before := all_events hist in
+  let now := sp_events st in
+  let sound :=
+    forallb (fun x => match x with
+                      | ESafeToNotar b => s2n_cond e acc blocks certs b && negb (ev_s2n before b)
+                                          && Nat.eqb (count_ev (fun y => match y with ESafeToNotar b' => bid_eqb b b' | _ => false end) now) 1
+                      | ESafeToSkip s => s2s_cond e acc s && negb (ev_s2s before s)
+                                         && Nat.eqb (count_ev (fun y => match y with ESafeToSkip s' => s =? s' | _ => false end) now) 1
+                      | _ => true
+                      end) now in
+  let in_bounds s := ob_first_unpruned (sp_obs st) <=? s in
+  let complete :=
+    forallb (fun bp => let b := fst bp in
+                       negb (in_bounds (fst b)) || negb (s2n_cond e acc blocks certs b) || ev_s2n (now ++ before) b) blocks
+    && forallb (fun s => negb (in_bounds s) || negb (s2s_cond e acc s) || ev_s2s (now ++ before) s)
+               (fold_right sset_insert [] (map v_slot acc)) in
+  sound && complete.
+
 (* ---------- runner ---------- *)
 Definition queried (st : pstep) : list slot := map fst (ob_parents_ready (sp_obs st)).
 
@@ -165,6 +223,7 @@ Definition oracle_ok (sel : N) (e : epoch) (hist : list pstep) (st : pstep) : bo
   match sel with
   | 3 => c03_step_ok e hist st
   | 4 => c04_step_ok hist st
+  | 6 => c06_step_ok e hist st
   | _ => true
   end end.
 
